@@ -601,6 +601,23 @@ def check_r7(chk, F, M, f, I, env, gd, names, gtimes, gC, gT, cubic):
     for nm in (names["inner"], gd):
         ops = [e.op for e in st if e.target == nm][:2]
         chk.ob("C05-R7", "%s %s resized and zeroed before accumulation" % (cls, nm), ops == ["resize", "setZero"], where, str(ops), construct="%s/init/%s" % (cls, nm))
+    # linearity, control-flow side: nothing is skipped or selected depending on the *values* of the upstream gradient (a
+    # tolerance test such as Eigen's isZero() drops small but non-zero contributions: the map is then not linear)
+    def all_loops(ls):
+        for L_ in ls:
+            yield L_
+            yield from all_loops(L_.inner)
+    dep = []
+    for L_ in all_loops(I.loops):
+        for txt, cnd in L_.locals.get("_skip_guards", []):
+            if any(nm_ in str(cnd) for nm_ in (gC, gT)):
+                dep.append((L_.line, txt))
+    for e_ in list(I.effects) + [x_ for L_ in all_loops(I.loops) for x_ in L_.effects]:
+        for gtxt, pol in (e_.guards or []):
+            if any(nm_ in gtxt for nm_ in (gC, gT)) and (e_.line, gtxt) not in dep:
+                dep.append((e_.line, gtxt))
+    chk.ob("C05-R7", "%s control flow does not depend on the values of the upstream gradient" % cls, not dep, loc(f, {"line": dep[0][0]}) if dep else where,
+           "work is skipped when %s" % dep[0][1] if dep else "", construct=cls + "/linear/control-flow")
     # linearity: every vector increment consists of upstream / multiplier atoms only, every scalar increment is bilinear with exactly one such atom
     glike = {gC, gd}
     lam_names = set()
